@@ -156,6 +156,8 @@ Check(ev) ==
        (IF ev.panic # "" THEN {F(prop, "panic during join", ev.panic)} ELSE {})
   \cup (IF ev.panic = "" /\ unc /\ ev.count # UncResult(ev).count
         THEN {F(prop, "an unconstrained join delivers one item per index that no negated member excludes (delivered, expected)", <<ev.count, UncResult(ev).count>>)} ELSE {})
+  \cup (IF ev.panic = "" /\ "pcount" \in DOMAIN ev /\ ev.pcount # Len(exp)
+        THEN {F(prop, "par_join().count() differs from the number of indices in the join (counted, expected)", <<ev.pcount, Len(exp)>>)} ELSE {})
   \cup (IF ev.panic = "" /\ itemsBad THEN {F(prop, "delivered items differ from the join of the members (got, expected)", <<got, exp>>)} ELSE {})
   \cup (IF ev.panic = "" THEN {F(prop, "contents after the join (member, got, expected)", <<k, ev.after[k], ExpAfter(ev, k, visited, inc)>>) : k \in afterBad} ELSE {})
   \cup (IF ev.panic = "" THEN {F("C06", "lending get by entity (entity, alive, got)", ev.gets[j]) : j \in getsBad} ELSE {})
